@@ -505,7 +505,14 @@ impl Engine for E5 {
         let cap = if buffered {
             match cfg.weighted(&[20, 80]) {
                 0 => None,
-                _ => Some(*cfg.pick(&[0usize, 1, 8, 16, 24, 32, 64, 100, 1432])),
+                _ => {
+                    if focus == "C13" && cfg.chance(1, 40) {
+                        // a large buffer (Unix sockets carry far more than a UDP datagram)
+                        Some(*cfg.pick(&[9000usize, 66_000, 131_072]))
+                    } else {
+                        Some(*cfg.pick(&[0usize, 1, 8, 16, 24, 32, 64, 100, 1432]))
+                    }
+                }
             }
         } else {
             None
@@ -788,11 +795,14 @@ fn judge(case: &NetCase, obs: &Obs, end_tasks: &[TaskInfo], out: &mut Outcome, w
             }
         }
     }
+    let emits: Vec<&OpRec> = obs.ops.iter().filter(|o| o.op == "emit").collect();
+    #[allow(clippy::never_loop)]
+    'c13: loop {
     // destination of every datagram
     for r in &obs.ledger {
         if r.dest != dest {
             out.violate(&["C13"], "net.wrong-destination", format!("datagram #{} was sent to {:?}; the sink was constructed for {dest:?}", r.idx, r.dest));
-            return;
+            break 'c13;
         }
     }
     if obs.ops.iter().any(|o| o.op == "emit" && o.text.chars().any(|c| c == 'é')) {
@@ -802,7 +812,6 @@ fn judge(case: &NetCase, obs: &Obs, end_tasks: &[TaskInfo], out: &mut Outcome, w
         out.probe("whitespace_edged");
     }
 
-    let emits: Vec<&OpRec> = obs.ops.iter().filter(|o| o.op == "emit").collect();
 
     // ---- C13 unbuffered: exactly one datagram per emit, exactly the metric's bytes ----
     if !buffered && !case.queuing {
@@ -823,7 +832,7 @@ fn judge(case: &NetCase, obs: &Obs, end_tasks: &[TaskInfo], out: &mut Outcome, w
                     "net.unbuffered-one-datagram-exact-bytes",
                     format!("emit #{} ({} bytes, {:?}…) on task {} produced {} datagram(s) {:?}; expected exactly one whose payload is exactly the metric's bytes", e.id, e.text.len(), e.text.chars().take(30).collect::<String>(), e.task, cands.len(), shown),
                 );
-                return;
+                break 'c13;
             }
             let r = &obs.ledger[exact[0]];
             used[exact[0]] = true;
@@ -831,7 +840,7 @@ fn judge(case: &NetCase, obs: &Obs, end_tasks: &[TaskInfo], out: &mut Outcome, w
                 (Res::Ok(n), Ok(m)) => {
                     if n != m {
                         out.violate(&["C13"], "net.unbuffered-result", format!("emit #{} returned Ok({n}), the socket reported {m} bytes sent", e.id));
-                        return;
+                        break 'c13;
                     }
                 }
                 (Res::Err(err), Err((k, os, msg))) => {
@@ -839,21 +848,25 @@ fn judge(case: &NetCase, obs: &Obs, end_tasks: &[TaskInfo], out: &mut Outcome, w
                     let want = ErrId { kind: kind_name(*k), msg: msg.clone(), os: *os };
                     if !want.same(err) {
                         out.violate(&["C13"], "net.unbuffered-result", format!("emit #{} returned {err:?}, the socket's error was {want:?}", e.id));
-                        return;
+                        break 'c13;
                     }
                 }
                 (a, b) => {
                     out.violate(&["C13"], "net.unbuffered-result", format!("emit #{} returned {a:?} but the socket answered {b:?}", e.id));
-                    return;
+                    break 'c13;
                 }
             }
         }
         if used.iter().any(|u| !u) {
             out.violate(&["C13"], "net.unbuffered-extra-datagram", format!("{} datagram(s) were sent that correspond to no emit", used.iter().filter(|u| !**u).count()));
-            return;
+            break 'c13;
         }
     }
 
+        break 'c13;
+    }
+    #[allow(clippy::never_loop)]
+    'buf: loop {
     // ---- buffered sinks ----
     if buffered {
         let cap = case.cap.unwrap_or(512);
@@ -971,7 +984,7 @@ fn judge(case: &NetCase, obs: &Obs, end_tasks: &[TaskInfo], out: &mut Outcome, w
                             props = vec!["C12"];
                         }
                         out.violate(&props, "stream.flush-ok-but-not-written", format!("flush on task {} returned Ok at step {} but metric #{} (acknowledged at step {}) was not yet on the wire", f.task, f.step_after, e.id, e.step_after));
-                        return;
+                        break 'buf;
                     }
                 }
                 out.probe("flush_barrier_checked");
@@ -1000,6 +1013,8 @@ fn judge(case: &NetCase, obs: &Obs, end_tasks: &[TaskInfo], out: &mut Outcome, w
         }
     }
 
+        break 'buf;
+    }
     // ---- C14: telemetry adds up at quiescent points ----
     if socket_sink {
         for s in &obs.stats {
